@@ -45,9 +45,11 @@ pub struct RunPlan {
     pub len: usize,
     /// C19: bulk shape (entries, insertion order 0 asc / 1 desc / 2 random, churn)
     pub bulk: Option<(usize, u8, bool)>,
+    /// ordered map / set: start the run with a bulk build of this many keys in this pattern
+    pub ord_bulk: Option<(i32, u8)>,
 }
 
-const SEG_LENS: &[i64] = &[17, 18, 31, 32, 33, 63, 64, 65, 100, 255, 256, 1000, 1023, 1024, 1025, 1 << 20, (1 << 20) + 1, 3_000_000, 1 << 31, 1 << 40];
+const SEG_LENS: &[i64] = &[17, 18, 31, 32, 33, 63, 64, 65, 100, 255, 256, 1000, 1023, 1024, 1025, 1 << 20, (1 << 20) + 1, 3_000_000, 1 << 31, 1 << 40, (1 << 49) + 1, 1 << 50, (1 << 55) + 3];
 
 fn draw_seg_domain(r: &mut Rng) -> (u8, i64, i64) {
     let len = *r.pick(SEG_LENS);
@@ -68,7 +70,7 @@ fn draw_seg_domain(r: &mut Rng) -> (u8, i64, i64) {
         0 => (i32::MIN as i64, i32::MAX as i64),
         1 => (i16::MIN as i64, i16::MAX as i64),
         2 => (0, 255),
-        _ => (-(1i64 << 45), 1i64 << 45),
+        _ => (-(1i64 << 60), 1i64 << 60),
     };
     let lo = match r.below(6) {
         0 => 0,
@@ -88,7 +90,7 @@ fn base_cfg(prop: &str, world: WorldKind, colls: u8, oracles: u32, r: &mut Rng) 
     let key_lo = *r.pick(&[0, 0, -5, 1000, -(1 << 20), i32::MAX - (1 << 21)]);
     let t0 = *r.pick(&[0, 0, 0, 5, 1000, 1 << 30]);
     let (seg_ty, seg_lo, seg_hi) = if world == WorldKind::Seg { draw_seg_domain(r) } else { (0, 0, 31) };
-    Cfg { prop: prop.to_string(), world, colls, oracles, cap, key_lo, universe, seg_ty, seg_lo, seg_hi, t0 }
+    Cfg { prop: prop.to_string(), world, colls, oracles, cap, key_lo, universe, seg_ty, seg_lo, seg_hi, t0, sweep_mode: if matches!(world, WorldKind::Map | WorldKind::Set) && r.chance(1, 3) { 1 } else { 0 } }
 }
 
 fn draw_len(r: &mut Rng, thorough: bool) -> usize {
@@ -183,7 +185,7 @@ pub fn draw_plan(prop: &str, index: u64, r: &mut Rng, thorough: bool) -> RunPlan
             let sizes: &[usize] = if thorough {
                 &[0, 1, 2, 3, 7, 8, 9, 15, 16, 17, 31, 33, 63, 64, 65, 127, 128, 129, 255, 257, 511, 513, 1023, 1025, 2047, 4095, 4097, 8191, 16383, 16385, 32767, 65535, 65537, 131071, 262143, 524287, 1 << 20, (1 << 20) + 1, 1 << 22]
             } else {
-                &[0, 1, 2, 3, 7, 8, 9, 15, 16, 17, 31, 33, 63, 64, 65, 127, 128, 129, 255, 257, 511, 513, 1023, 1025, 2047, 4095, 4097, 8191, 16383, 16385, 32767, 65537]
+                &[0, 1, 2, 3, 7, 8, 9, 15, 16, 17, 31, 33, 63, 64, 65, 127, 128, 129, 255, 257, 511, 513, 1023, 1025, 2047, 4095, 4097, 8191, 16383, 16385, 32767, 65537, 200_000, 262_145]
             };
             // boundary sizes most of the time, any size in between otherwise
             let n = if r.chance(2, 3) { *r.pick(sizes) } else { r.range(0, if thorough { 300_000 } else { 20_000 }) as usize };
@@ -202,5 +204,19 @@ pub fn draw_plan(prop: &str, index: u64, r: &mut Rng, thorough: bool) -> RunPlan
         "C20" => base_cfg(prop, WorldKind::Key, C_TREE | C_LIST, O_MON, r),
         _ => panic!("unknown property {}", prop),
     };
-    RunPlan { cfg, len, bulk }
+    // large trees (deeper than 32 levels) are out of reach of short histories: a few runs of the
+    // tree-only map / set checks start from a bulk build
+    let mut ord_bulk = None;
+    let mut cfg = cfg;
+    let bulk_every = if thorough { 20_000 } else { 5_000 };
+    if matches!(cfg.world, WorldKind::Map | WorldKind::Set) && cfg.colls == C_TREE && !cfg.has(O_TORN) && index % bulk_every == 11 {
+        let n = *r.pick(&[150_000, 262_144 + 7, 300_000, 524_288]);
+        let pat = r.below(3) as u8;
+        cfg.key_lo = 0;
+        cfg.universe = n + 16;
+        cfg.cap = *r.pick(&[0usize, 8, 1000]);
+        ord_bulk = Some((n, pat));
+        len = 2 + r.below(14) as usize;
+    }
+    RunPlan { cfg, len, bulk, ord_bulk }
 }
